@@ -89,6 +89,73 @@ impl<'tcx> Cx<'tcx> {
         }
     }
 
+    /// What can run when a value of this type is dropped:
+    /// bit 0 = the destructor of a type parameter (user code),
+    /// bit 1 = the destructor of a handle type defined in the analysed crate
+    ///         (an ADT of the local crate with a Drop impl).
+    /// Raw pointers, references, NonNull and PhantomData own nothing.
+    fn drop_runs(&self, ty: Ty<'tcx>, depth: u32) -> u32 {
+        if depth > 12 {
+            return 1;
+        }
+        let tcx = self.tcx;
+        match ty.kind() {
+            ty::Param(_) => 1,
+            ty::Adt(def, args) => {
+                if def.is_phantom_data() || def.is_manually_drop() {
+                    return 0;
+                }
+                let mut r = 0;
+                if tcx.adt_destructor(def.did()).is_some() {
+                    if def.did().is_local() {
+                        r |= 2;
+                        // a local handle's destructor may in turn destroy user values
+                        r |= 1;
+                        return r;
+                    }
+                    // foreign container with a destructor: it drops what its type arguments own
+                    for a in args.iter() {
+                        if let Some(t) = a.as_type() {
+                            r |= self.drop_runs(t, depth + 1);
+                        }
+                    }
+                    return r;
+                }
+                if def.is_union() {
+                    return 0;
+                }
+                for f in def.all_fields() {
+                    let fty = f.ty(tcx, args);
+                    r |= self.drop_runs(fty, depth + 1);
+                    if r == 3 {
+                        break;
+                    }
+                }
+                r
+            }
+            ty::Tuple(ts) => {
+                let mut r = 0;
+                for t in ts.iter() {
+                    r |= self.drop_runs(t, depth + 1);
+                }
+                r
+            }
+            ty::Array(t, _) | ty::Slice(t) => self.drop_runs(*t, depth + 1),
+            ty::Closure(_, cargs) => {
+                let mut r = 0;
+                for t in cargs.as_closure().upvar_tys().iter() {
+                    r |= self.drop_runs(t, depth + 1);
+                }
+                r
+            }
+            ty::Ref(..) | ty::RawPtr(..) | ty::FnDef(..) | ty::FnPtr(..) | ty::Never | ty::Bool | ty::Char
+            | ty::Int(_) | ty::Uint(_) | ty::Float(_) | ty::Str => 0,
+            ty::Pat(inner, _) => self.drop_runs(*inner, depth + 1),
+            ty::Alias(..) if !ty.has_param() => 0,
+            other => { if std::env::var("FACTGEN_DEBUG").is_ok() { eprintln!("drop_runs fallthrough: {:?}", other); } 1 }
+        }
+    }
+
     fn ty_json(&self, ty: Ty<'tcx>, env: TypingEnv<'tcx>) -> String {
         let (adt, depth) = self.ty_adt(ty);
         let mut o = String::new();
@@ -132,7 +199,8 @@ impl<'tcx> Cx<'tcx> {
         }
         let has_param = ty.has_param();
         let needs_drop = ty.needs_drop(self.tcx, env);
-        let _ = write!(o, ",\"hp\":{},\"nd\":{}}}", has_param, needs_drop);
+        let dp = if needs_drop { self.drop_runs(ty, 0) } else { 0 };
+        let _ = write!(o, ",\"hp\":{},\"nd\":{},\"dp\":{}}}", has_param, needs_drop, dp);
         o
     }
 
@@ -178,7 +246,7 @@ impl<'tcx> Cx<'tcx> {
                 }
                 PlaceElem::Downcast(sym, vidx) => {
                     let n = sym.map(|s| s.to_string()).unwrap_or_else(|| vidx.as_usize().to_string());
-                    let _ = write!(o, "{{\"dc\":{}}}", esc(&n));
+                    let _ = write!(o, "{{\"dc\":{},\"vi\":{}}}", esc(&n), vidx.as_usize());
                 }
                 PlaceElem::Index(l) => {
                     let _ = write!(o, "{{\"idx\":{}}}", l.as_usize());
@@ -354,12 +422,14 @@ impl<'tcx> Cx<'tcx> {
             Rvalue::Discriminant(pl) => format!("{{\"k\":\"discr\",\"pl\":{}}}", self.place_json(body, pl)),
             Rvalue::CopyForDeref(pl) => format!("{{\"k\":\"copyderef\",\"pl\":{}}}", self.place_json(body, pl)),
             Rvalue::Aggregate(ak, ops) => {
+                let mut vindex = 0usize;
                 let (akn, name, variant) = match &**ak {
                     AggregateKind::Array(_) => ("array", String::new(), String::new()),
                     AggregateKind::Tuple => ("tuple", String::new(), String::new()),
                     AggregateKind::Adt(did, vidx, _, _, _) => {
                         let def = self.tcx.adt_def(*did);
                         let v = def.variant(*vidx);
+                        vindex = vidx.as_usize();
                         ("adt", self.path(*did), v.name.to_string())
                     }
                     AggregateKind::Closure(did, _) => ("closure", self.path(*did), String::new()),
@@ -384,10 +454,11 @@ impl<'tcx> Cx<'tcx> {
                     }
                 }
                 let mut o = format!(
-                    "{{\"k\":\"agg\",\"ak\":{},\"name\":{},\"variant\":{},\"fields\":[{}],\"ops\":[",
+                    "{{\"k\":\"agg\",\"ak\":{},\"name\":{},\"variant\":{},\"vidx\":{},\"fields\":[{}],\"ops\":[",
                     esc(akn),
                     esc(&name),
                     esc(&variant),
+                    vindex,
                     fields
                 );
                 let mut first = true;
